@@ -214,6 +214,62 @@ def run_places(spec, ctx):
                 ctx.case(("place-undefined", aname, sname, li))
                 if o.kind != "value" or text(o) != "['error', 'undefined']":
                     ctx.violation("C03:assignment-creates-binding:%s:%s" % (aname, sname), "%s -> %s; no T is defined, so this must fail and define nothing" % (src, text(o)), {"src": src})
+    # a name is looked up in the scopes as they are at that moment: the same function body, loop body or closure body run
+    # again under a scope of another shape (a local def made on some runs only) finds the nearest binding each time
+    import itertools
+    for L in range(1, 5):
+        for seq in itertools.product((False, True), repeat=L):
+            bs = "[" + ", ".join("TRUE" if b else "FALSE" for b in seq) + "]"
+            seen_inner, loop_want = False, []
+            for b in seq:
+                seen_inner = seen_inner or b
+                loop_want.append("'inner'" if seen_inner else "'outer'")
+            cases = [
+                ("call", "def x = 1; def f(shadow) do if shadow then do def x = 2; end; x end; [f(b) for b in %s]" % bs, "[" + ", ".join("2" if b else "1" for b in seq) + "]"),
+                ("call-nested-read", "def x = 1; def f(shadow) do if shadow then do def x = 2; end; (fn() [x][0])() end; [f(b) for b in %s]" % bs, "[" + ", ".join("2" if b else "1" for b in seq) + "]"),
+                ("loop", "def y = 'outer'; def g() do def seen = []; for b in %s do if b then do def y = 'inner'; end; append(seen, y) end; seen end; g()" % bs, "[" + ", ".join(loop_want) + "]"),
+                ("closure", "def n = 100; def make(own) do if own then do def n = 0; end; fn() n + 1 end; def fs = [make(b) for b in %s]; [f() for f in fs] + [f() for f in fs]" % bs,
+                 "[" + ", ".join(["1" if b else "101" for b in seq] * 2) + "]"),
+                ("assign", "def z = 0; def h(own) do if own then do def z = 10; end; z += 1; z end; [[h(b) for b in %s], z]" % bs,
+                 "[[" + ", ".join(("11" if b else str(k)) for b, k in zip(seq, itertools.accumulate(0 if b else 1 for b in seq))) + "], %d]" % sum(0 if b else 1 for b in seq)),
+            ]
+            for cname, src, want in cases:
+                for li, it in enumerate(its):
+                    o = ev(it, src)
+                    ctx.count("place_programs")
+                    ctx.count("scope_shape_programs")
+                    ctx.case(("scope-shape", cname, seq, li), nontrivial=len(set(seq)) > 1)
+                    if o.kind == "syntax":
+                        ctx.count("harness_syntax_errors")
+                        ctx.note("scope-shape program does not parse: %s" % src)
+                    elif o.kind != "value" or text(o) != want:
+                        ctx.violation("C03:lookup-under-another-scope-shape:%s" % cname, "%s -> %s, expected %s" % (src, text(o), want), {"src": src})
+    # obj->m(a): the member is looked up along the prototype chain and the receiver goes first, whatever kind of object
+    # the member is finally found on - a module used as a prototype included (Module->f(a) itself passes no receiver)
+    for mod, calls in (("Type", ["is_object()", "is_list()", "is_string()"]), ("List", ["map_list(fn(k) k)", "filter(fn(k) k == 'n')"]), ("Core", ["identity()", "type()"])):
+        for depth in range(0, 4):
+            chain = mod
+            for _ in range(depth):
+                chain = "<*_proto_ = %s*>" % chain
+            for c in calls:
+                fname, rest = c.split("(", 1)
+                direct = "%s->%s(o%s%s" % (mod, fname, ", " if rest != ")" else "", rest)
+                src = "require %s; def o = <*_proto_ = %s, n = 7*>; [do o->%s catch e 'error: ' + string(e) end, do %s catch e 'error: ' + string(e) end]" % (mod, chain, c, direct)
+                for li, it in enumerate(its):
+                    o = ev(it, src)
+                    ctx.count("place_programs")
+                    ctx.count("module_prototype_programs")
+                    ctx.case(("module-proto", mod, depth, c, li), nontrivial=True)
+                    if o.kind != "value":
+                        ctx.violation("C03:method-call-through-module-prototype:%s" % o.kind, "%s -> %s" % (src, text(o)), {"src": src})
+                        continue
+                    try:
+                        a_, b_ = o.value.value[0], o.value.value[1]
+                        same = core.safe_str(a_, 300) == core.safe_str(b_, 300)
+                    except Exception:  # noqa
+                        same = False
+                    if not same:
+                        ctx.violation("C03:method-call-through-module-prototype:%s" % fname, "%s -> %s: o->f(..) and %s differ (the receiver goes first)" % (src, text(o), direct), {"src": src})
     ctx.sample({"place_assignments": len(PLACE_ASSIGNS), "scopes": len(PLACE_SCOPES)})
 
 
